@@ -5,6 +5,7 @@ from engine.rulelib import fnview
 from engine.cfg import render, strip_ref, peel, subexprs
 
 CRATES = ["lightning_signer"]
+OPTIONAL_CRATES = ["vls_protocol_signer"]
 LS = "lightning_signer::"
 CH = LS + "channel::Channel"
 NS = LS + "node::NodeState"
@@ -37,6 +38,11 @@ CLAIM = {
 }
 
 
+CLAIM["text"] += (" (R6.8) an operator's memoized approval covers exactly what was approved: MemoApprover answers true for an invoice "
+                  "only on equality of the whole-invoice hashes (not the payment hash, which a different invoice - other amount, other "
+                  "payee - can share), and for a keysend only on equality of payment hash and amount; evaluated where the build "
+                  "contains the protocol signer.")
+
 def run(ctx):
     ctx.explanation = CLAIM["text"]
     ctx.not_decided = "the node-wide conservation inequality over all update orders (sums over runtime maps)"
@@ -47,6 +53,7 @@ def run(ctx):
     r65(ctx)
     r_content(ctx)
     r67(ctx)
+    r68(ctx)
 
 
 def _named(fv, name):
@@ -494,3 +501,34 @@ def r67(ctx):
                    "update on another channel is balanced against zero and an approved invoice can be overpaid",
                    where=f"{b.file}:{c.line}", sample=ALLOWED.get((on, last)))
     ctx.floor("R6.7", "map operations on NodeState.payments", n, 8)
+
+
+def r68(ctx):
+    p = ctx.prog
+    fns = [b for b in p.bodies.values() if b.d.krate == "vls_protocol_signer" and "MemoApprover" in b.name and "{closure" not in b.name]
+    if not fns:
+        ctx.rule("R6.8", "memoized approvals match the whole approved object: not evaluated in this build configuration (no protocol signer)")
+        return
+    ctx.rule("R6.8", "MemoApprover: approve_invoice returns true from the memo only when invoice_hash(approved) == invoice_hash(proposed); "
+                     "approve_keysend only when payment hash and amount are both equal")
+    for meth, need in (("approve_invoice", [("invoice_hash(", "invoice_hash(")]),
+                       ("approve_keysend", [("payment_hash", "payment_hash"), ("amount_msat", "amount_msat")])):
+        bl = [b for b in fns if b.name.endswith("::" + meth)]
+        ctx.floor("R6.8", f"MemoApprover::{meth}", len(bl), 1)
+        b = bl[0]
+        fv = fnview(ctx, b, policy=False).named()
+        trues = [r for r in fv.return_sites() if r["kind"] == "true"]
+        ctx.floor("R6.8", f"`return true` in MemoApprover::{meth}", len(trues), 1)
+        for a_frag, c_frag in need:
+            sites = R.eq_sites(fv, lambda a, c, af=a_frag, cf=c_frag: af in a and cf in c)
+            ok = bool(sites)
+            if ok:
+                eq_edges = set()
+                for s_ in sites:
+                    eq_edges |= s_[2]
+                ok = all(fv.must_pass(R.site_block(r), eq_edges) for r in trues)
+            ctx.ob("R6.8", ok, f"MemoApprover::{meth}/{a_frag.strip('(')}",
+                   f"MemoApprover::{meth} can answer `approved` from a memoized approval without equality of `{a_frag.strip('(')}` between the "
+                   "approved and the proposed object: an approval given for one invoice (or keysend) is spent on another that merely shares "
+                   "its payment hash, so a payment nobody approved is registered and its HTLCs are signed",
+                   where=f"{b.file}:{b.line}", sample=f"true only behind {a_frag.strip('(')} == {c_frag.strip('(')}")
